@@ -1,6 +1,6 @@
 (* C06: proofs about the model of the rendered diff (RenderModel.v), for all trees, scripts and layouts. *)
 From Coq Require Import List Bool ZArith Lia Arith.
-Require Import GT.PyBase GT.Data GT.ScriptSpec GT.JsonSpec GT.JsonModel GT.JsonProofs GT.RenderSpec GT.RenderModel.
+Require Import GT.PyBase GT.Data GT.ScriptSpec GT.ListAux GT.JsonSpec GT.JsonModel GT.JsonProofs GT.RenderSpec GT.RenderModel.
 Import ListNotations.
 Open Scope Z_scope.
 
@@ -394,3 +394,1216 @@ Proof.
   rewrite !erase_app, !erase_mk_plain, erase_rstr. destruct side; reflexivity.
 Qed.
 
+(* ------------------------------------------------------------------ the delimiter counters of print_SequenceNode *)
+
+(* the reachable counter states: nothing pending, one removal pending, one insertion pending *)
+Inductive pst := P0 | PR | PI.
+Definition ptr (p : pst) : nat := match p with PR => 1%nat | _ => 0%nat end.
+Definition pti (p : pst) : nat := match p with PI => 1%nat | _ => 0%nat end.
+
+Definition survives (side : bool) (k : ikind) : bool :=
+  match k with IKeep => true | IRem => negb side | IIns => side end.
+
+Definition item_spec (side : bool) (it : ikind * stream) (ts : list tok) : Prop :=
+  if survives side (fst it) then spells side (snd it) ts
+  else erase (em side) (snd it) = [] /\ ts = [].
+
+Lemma lead_sepch : forall m join n body, forallb is_sepch (erase m (item_lead join n body)) = true.
+Proof.
+  intros m join n body. unfold item_lead. destruct join; [reflexivity|].
+  rewrite erase_cons. apply forallb_forall. intros x Hx. apply in_app_or in Hx as [Hx|Hx].
+  - destruct (keeps m (10, Plain)); [|contradiction]. destruct Hx as [<-|[]]. reflexivity.
+  - rewrite erase_mk in Hx. destruct (keeps m (0, first_mark body)); [|contradiction].
+    apply ws_sepch. pose proof (indent_ws n) as Hi. rewrite forallb_forall in Hi. apply Hi. exact Hx.
+Qed.
+
+Lemma delim_start_sepch : forall ws r, forallb is_sepch ws = true -> delim_start r = true -> delim_start (ws ++ r) = true.
+Proof.
+  intros [|w ws] r H Hr; [exact Hr|]. cbn in *. apply andb_prop in H as [Hw _]. unfold atomic. rewrite Hw. reflexivity.
+Qed.
+
+Lemma delim_start_comma : forall r, delim_start (44 :: r) = true.
+Proof. reflexivity. Qed.
+
+Ltac step_items :=
+  cbn [ritems ptr pti fst snd Nat.min Nat.sub];
+  repeat (rewrite erase_cons || rewrite erase_app); cbn [keeps snd mark_eqb negb andb app em]; rewrite <- ?app_assoc.
+
+Section Counters.
+  Variable join : bool.
+  Variable n : nat.
+
+  (* first document: inserted text deleted.  Once an item that stays has been printed no insertion is pending
+     at an item boundary, so the delimiter between two items that stay is never deleted with the insertions. *)
+  Lemma ritems_first : forall items tss, Forall2 (item_spec false) items tss ->
+    forall first p seen r,
+      (first = true -> p = P0 /\ seen = false) -> (seen = true -> p <> PI) -> (seen = false -> p <> PR) ->
+      delim_start r = true ->
+      (seen = true -> delim_start (erase Inserted (ritems join n first (ptr p) (pti p) items) ++ r) = true) /\
+      lex LOut (erase Inserted (ritems join n first (ptr p) (pti p) items) ++ r) = concat tss ++ lex LOut r.
+  Proof.
+    intros items tss H. induction H as [|[k body] ts items tss Hit Hits IH]; intros first p seen r Hf Hs Hn Hr.
+    - cbn. split; [intros _; exact Hr|reflexivity].
+    - unfold item_spec in Hit; cbn [fst snd] in Hit.
+      pose proof (lead_sepch Inserted join n body) as Hl.
+      assert (Stay : forall p' R, survives false k = true ->
+                (delim_start (erase Inserted (ritems join n false (ptr p') (pti p') items) ++ r) = true /\
+                 lex LOut (erase Inserted (ritems join n false (ptr p') (pti p') items) ++ r) = concat tss ++ lex LOut r) ->
+                R = erase Inserted (ritems join n false (ptr p') (pti p') items) ++ r ->
+                lex LOut (erase Inserted (item_lead join n body) ++ erase Inserted body ++ R) = concat (ts :: tss) ++ lex LOut r).
+      { intros p' R Hsv [IA IB] ->. rewrite Hsv in Hit. unfold spells, spells_text in Hit; cbn [em] in Hit. rewrite lex_seps by exact Hl.
+        rewrite (Hit _ IA). cbn [concat]. rewrite <- app_assoc. f_equal. exact IB. }
+      assert (Next : forall p', p' <> PI ->
+                delim_start (erase Inserted (ritems join n false (ptr p') (pti p') items) ++ r) = true /\
+                lex LOut (erase Inserted (ritems join n false (ptr p') (pti p') items) ++ r) = concat tss ++ lex LOut r).
+      { intros p' Hp. destruct (IH false p' true r) as [IA IB]; try congruence; try discriminate. split; auto. }
+      destruct first.
+      + destruct (Hf eq_refl) as [-> ->]. split; [discriminate|].
+        destruct k; cbn [survives negb] in Hit; step_items.
+        * apply (Stay P0); [reflexivity|apply Next; discriminate|reflexivity].
+        * apply (Stay PR); [reflexivity|apply Next; discriminate|reflexivity].
+        * destruct Hit as [He ->]. cbn [em] in He. destruct (IH false PI false r) as [IA IB]; try congruence; try discriminate.
+          rewrite lex_seps by exact Hl. rewrite He. cbn [app concat]. exact IB.
+      + destruct k; cbn [survives negb] in Hit.
+        * (* keep *)
+          destruct p; step_items.
+          -- split; [reflexivity|]. rewrite lex_sep by reflexivity.
+             apply (Stay P0); [reflexivity|apply Next; discriminate|reflexivity].
+          -- split; [reflexivity|]. rewrite lex_sep by reflexivity.
+             apply (Stay P0); [reflexivity|apply Next; discriminate|reflexivity].
+          -- destruct seen; [exfalso; apply (Hs eq_refl); reflexivity|]. split; [discriminate|].
+             apply (Stay P0); [reflexivity|apply Next; discriminate|reflexivity].
+        * (* removed: stays *)
+          destruct p; step_items.
+          -- split; [reflexivity|]. rewrite lex_sep by reflexivity.
+             apply (Stay P0); [reflexivity|apply Next; discriminate|reflexivity].
+          -- split; [reflexivity|]. rewrite lex_sep by reflexivity.
+             apply (Stay PR); [reflexivity|apply Next; discriminate|reflexivity].
+          -- split; [reflexivity|]. rewrite lex_sep by reflexivity.
+             apply (Stay P0); [reflexivity|apply Next; discriminate|reflexivity].
+        * (* inserted: deleted *)
+          destruct Hit as [He ->]. cbn [em] in He.
+          destruct p; step_items; rewrite ?He; cbn [app concat].
+          -- destruct (IH false P0 seen r) as [IA IB]; try congruence; try discriminate.
+             cbn [ptr pti] in IA, IB. split.
+             ++ intro Hseen. apply delim_start_sepch; [exact Hl|]. apply IA. exact Hseen.
+             ++ rewrite lex_seps by exact Hl. exact IB.
+          -- destruct (IH false P0 true r) as [IA IB]; try congruence; try discriminate.
+             cbn [ptr pti] in IA, IB. split; [reflexivity|]. rewrite lex_sep by reflexivity.
+             rewrite lex_seps by exact Hl. exact IB.
+          -- destruct seen; [exfalso; apply (Hs eq_refl); reflexivity|].
+             destruct (IH false PI false r) as [IA IB]; try congruence; try discriminate.
+             cbn [ptr pti] in IA, IB. split; [discriminate|]. rewrite lex_seps by exact Hl. exact IB.
+  Qed.
+  (* second document: removed text deleted; symmetric *)
+  Lemma ritems_second : forall items tss, Forall2 (item_spec true) items tss ->
+    forall first p seen r,
+      (first = true -> p = P0 /\ seen = false) -> (seen = true -> p <> PR) -> (seen = false -> p <> PI) ->
+      delim_start r = true ->
+      (seen = true -> delim_start (erase Removed (ritems join n first (ptr p) (pti p) items) ++ r) = true) /\
+      lex LOut (erase Removed (ritems join n first (ptr p) (pti p) items) ++ r) = concat tss ++ lex LOut r.
+  Proof.
+    intros items tss H. induction H as [|[k body] ts items tss Hit Hits IH]; intros first p seen r Hf Hs Hn Hr.
+    - cbn. split; [intros _; exact Hr|reflexivity].
+    - unfold item_spec in Hit; cbn [fst snd] in Hit.
+      pose proof (lead_sepch Removed join n body) as Hl.
+      assert (Stay : forall p' R, survives true k = true ->
+                (delim_start (erase Removed (ritems join n false (ptr p') (pti p') items) ++ r) = true /\
+                 lex LOut (erase Removed (ritems join n false (ptr p') (pti p') items) ++ r) = concat tss ++ lex LOut r) ->
+                R = erase Removed (ritems join n false (ptr p') (pti p') items) ++ r ->
+                lex LOut (erase Removed (item_lead join n body) ++ erase Removed body ++ R) = concat (ts :: tss) ++ lex LOut r).
+      { intros p' R Hsv [IA IB] ->. rewrite Hsv in Hit. unfold spells, spells_text in Hit; cbn [em] in Hit.
+        rewrite lex_seps by exact Hl.
+        rewrite (Hit _ IA). cbn [concat]. rewrite <- app_assoc. f_equal. exact IB. }
+      assert (Next : forall p', p' <> PR ->
+                delim_start (erase Removed (ritems join n false (ptr p') (pti p') items) ++ r) = true /\
+                lex LOut (erase Removed (ritems join n false (ptr p') (pti p') items) ++ r) = concat tss ++ lex LOut r).
+      { intros p' Hp. destruct (IH false p' true r) as [IA IB]; try congruence; try discriminate. split; auto. }
+      destruct first.
+      + destruct (Hf eq_refl) as [-> ->]. split; [discriminate|].
+        destruct k; cbn [survives negb] in Hit; step_items.
+        * apply (Stay P0); [reflexivity|apply Next; discriminate|reflexivity].
+        * destruct Hit as [He ->]. cbn [em] in He. destruct (IH false PR false r) as [IA IB]; try congruence; try discriminate.
+          rewrite lex_seps by exact Hl. rewrite He. cbn [app concat]. exact IB.
+        * apply (Stay PI); [reflexivity|apply Next; discriminate|reflexivity].
+      + destruct k; cbn [survives negb] in Hit.
+        * (* keep *)
+          destruct p; step_items.
+          -- split; [reflexivity|]. rewrite lex_sep by reflexivity.
+             apply (Stay P0); [reflexivity|apply Next; discriminate|reflexivity].
+          -- destruct seen; [exfalso; apply (Hs eq_refl); reflexivity|]. split; [discriminate|].
+             apply (Stay P0); [reflexivity|apply Next; discriminate|reflexivity].
+          -- split; [reflexivity|]. rewrite lex_sep by reflexivity.
+             apply (Stay P0); [reflexivity|apply Next; discriminate|reflexivity].
+        * (* removed: deleted *)
+          destruct Hit as [He ->]. cbn [em] in He.
+          destruct p; step_items; rewrite ?He; cbn [app concat].
+          -- destruct (IH false P0 seen r) as [IA IB]; try congruence; try discriminate.
+             cbn [ptr pti] in IA, IB. split.
+             ++ intro Hseen. apply delim_start_sepch; [exact Hl|]. apply IA. exact Hseen.
+             ++ rewrite lex_seps by exact Hl. exact IB.
+          -- destruct seen; [exfalso; apply (Hs eq_refl); reflexivity|].
+             destruct (IH false PR false r) as [IA IB]; try congruence; try discriminate.
+             cbn [ptr pti] in IA, IB. split; [discriminate|]. rewrite lex_seps by exact Hl. exact IB.
+          -- destruct (IH false P0 true r) as [IA IB]; try congruence; try discriminate.
+             cbn [ptr pti] in IA, IB. split; [reflexivity|]. rewrite lex_sep by reflexivity.
+             rewrite lex_seps by exact Hl. exact IB.
+        * (* inserted: stays *)
+          destruct p; step_items.
+          -- split; [reflexivity|]. rewrite lex_sep by reflexivity.
+             apply (Stay P0); [reflexivity|apply Next; discriminate|reflexivity].
+          -- split; [reflexivity|]. rewrite lex_sep by reflexivity.
+             apply (Stay P0); [reflexivity|apply Next; discriminate|reflexivity].
+          -- split; [reflexivity|]. rewrite lex_sep by reflexivity.
+             apply (Stay PI); [reflexivity|apply Next; discriminate|reflexivity].
+  Qed.
+End Counters.
+
+Lemma spells_rseq : forall side open close topen tclose join n ne items tss,
+  punct open = Some topen -> punct close = Some tclose -> Forall2 (item_spec side) items tss ->
+  spells side (rseq open close join n ne items) (topen :: concat tss ++ [tclose]).
+Proof.
+  intros side open close topen tclose join n ne items tss Ho Hc H r Hr.
+  unfold rseq.
+  match goal with |- context [ritems _ _ _ _ _ _ ++ ?t ++ _] =>
+    assert (Ht : forallb is_sepch (erase (em side) t) = true);
+      [destruct ne; [rewrite erase_mk_plain; apply sep_sepch|reflexivity]|generalize dependent t] end.
+  intros tail Ht.
+  rewrite erase_cons. replace (keeps (em side) (open, Plain)) with true by (destruct side; reflexivity).
+  cbn [app]. rewrite (lex_punct open topen) by exact Ho. rewrite !erase_app, <- !app_assoc.
+  remember (erase (em side) tail) as ws eqn:Ews. clear Ews.
+  assert (Hclose : erase (em side) [(close, Plain)] = [close]) by (destruct side; reflexivity).
+  rewrite Hclose.
+  assert (Hd : delim_start (ws ++ [close] ++ r) = true).
+  { apply delim_start_sepch; [exact Ht|]. cbn. unfold atomic. rewrite Hc. rewrite andb_false_r. reflexivity. }
+  assert (Hend : lex LOut (ws ++ [close] ++ r) = tclose :: lex LOut r).
+  { rewrite lex_seps by exact Ht. apply lex_punct. exact Hc. }
+  f_equal. destruct side; cbn [em].
+  - destruct (ritems_second join (S n) items tss H true P0 false (ws ++ [close] ++ r)) as [_ E];
+      try discriminate; auto.
+    cbn [ptr pti] in E. rewrite E, Hend. reflexivity.
+  - destruct (ritems_first join (S n) items tss H true P0 false (ws ++ [close] ++ r)) as [_ E];
+      try discriminate; auto.
+    cbn [ptr pti] in E. rewrite E, Hend. reflexivity.
+Qed.
+
+(* ------------------------------------------------------------------ the projections of a rendered script *)
+
+Definition sop_ok (o : sop) : bool := nonneg (sop_from o) && nonneg (sop_to o).
+Fixpoint edit_ok (e : edit) : bool :=
+  match e with
+  | EStr _ ops => forallb sop_ok ops
+  | EComp _ _ subs =>
+      (fix all (ss : list sub) : bool :=
+         match ss with
+         | [] => true
+         | SPair _ _ e' :: r => edit_ok e' && all r
+         | _ :: r => all r
+         end) subs
+  | _ => true
+  end.
+
+Lemma nonneg_app : forall x y, nonneg (x ++ y) = nonneg x && nonneg y.
+Proof. intros. unfold nonneg. apply forallb_app. Qed.
+
+Lemma nonneg_ops : forall side ops, forallb sop_ok ops = true -> nonneg (flat_map (sop_side side) ops) = true.
+Proof.
+  intros side ops H. induction ops as [|o ops IH]; [reflexivity|].
+  cbn in H. apply andb_prop in H as [Ho Hs]. cbn [flat_map]. rewrite nonneg_app, (IH Hs), andb_true_r.
+  unfold sop_ok in Ho. apply andb_prop in Ho as [H1 H2]. destruct side; assumption.
+Qed.
+
+Lemma tok_ok_dummy : tok_ok dummy = true.
+Proof. reflexivity. Qed.
+
+Lemma tok_ok_child : forall a i, tok_ok a = true -> tok_ok (child a i) = true.
+Proof.
+  intros a i H. unfold child.
+  assert (Hc : forallb tok_ok (children a) = true).
+  { destruct a; cbn in *; auto. apply andb_prop in H as [H1 H2]. rewrite H1, H2. reflexivity. }
+  clear H. revert i. induction (children a) as [|c cs IH]; intro i.
+  - destruct i; reflexivity.
+  - cbn in Hc. apply andb_prop in Hc as [H1 H2]. destruct i; cbn; auto.
+Qed.
+
+Definition Pspells (side : bool) (e : edit) : Prop :=
+  forall lay n a b, tok_ok a = true -> tok_ok b = true -> edit_ok e = true ->
+    spells side (redit lay n a b e) (ttoks (proj side a b e)).
+
+Lemma spells_erased : forall side s, item_spec side (if side then IRem else IIns, mk (em side) s) [].
+Proof.
+  intros side s. unfold item_spec. destruct side; cbn [fst snd survives negb]; split; auto; apply erase_mk_erased.
+Qed.
+
+Lemma items_spec : forall side lay n k a b subs,
+  tok_ok a = true -> tok_ok b = true ->
+  Forall (fun s => match s with SPair _ _ e => Pspells side e | _ => True end) subs ->
+  edit_ok (EComp k 0 subs) = true ->
+  exists tss,
+    Forall2 (item_spec side)
+      ((fix items (ss : list sub) : list (ikind * stream) :=
+          match ss with
+          | [] => []
+          | SPair i j e' :: r =>
+              (IKeep,
+               match k, e' with
+               | KMultiSet, EMatch c => if 0 <? c then from_to lay (S n) (child a i) (child b j)
+                                        else mk Plain (tprint lay (S n) (child a i))
+               | _, _ => redit lay (S n) (child a i) (child b j) e'
+               end) :: items r
+          | SRem i _ :: r => (IRem, mk Removed (tprint lay (S n) (child a i))) :: items r
+          | SIns j _ :: r => (IIns, mk Inserted (tprint lay (S n) (child b j))) :: items r
+          end) subs) tss /\
+    concat tss =
+    flat_map ttoks
+      ((fix items (ss : list sub) : list tree :=
+          match ss with
+          | [] => []
+          | SPair i j e' :: r =>
+              match k, e' with
+              | KMultiSet, EMatch c => if 0 <? c then (if side then child b j else child a i) else child a i
+              | _, _ => proj side (child a i) (child b j) e'
+              end :: items r
+          | SRem i _ :: r => if side then items r else child a i :: items r
+          | SIns j _ :: r => if side then child b j :: items r else items r
+          end) subs).
+Proof.
+  intros side lay n k a b subs Ha Hb HF Hok.
+  induction HF as [|s subs Hs HF IH].
+  - exists []. split; [constructor|reflexivity].
+  - destruct s as [i j e'|i c|j c].
+    + cbn [edit_ok] in Hok. apply andb_prop in Hok as [Hoke Hok]. destruct (IH Hok) as [tss [H1 H2]].
+      pose proof (tok_ok_child a i Ha) as Hai. pose proof (tok_ok_child b j Hb) as Hbj.
+      assert (Hgen : spells side (redit lay (S n) (child a i) (child b j) e') (ttoks (proj side (child a i) (child b j) e'))).
+      { apply Hs; assumption. }
+      assert (Hms : forall c, spells side (if 0 <? c then from_to lay (S n) (child a i) (child b j)
+                                            else mk Plain (tprint lay (S n) (child a i)))
+                                 (ttoks (if 0 <? c then (if side then child b j else child a i) else child a i))).
+      { intro c. destruct (0 <? c); [apply spells_from_to; assumption|apply spells_plain; assumption]. }
+      exists (ttoks (match k, e' with
+                     | KMultiSet, EMatch c => if 0 <? c then (if side then child b j else child a i) else child a i
+                     | _, _ => proj side (child a i) (child b j) e'
+                     end) :: tss). split.
+      * constructor; [|exact H1]. unfold item_spec; cbn [fst snd survives].
+        destruct k; try exact Hgen. destruct e'; try exact Hgen. apply Hms.
+      * cbn [concat flat_map]. rewrite H2. destruct k; try reflexivity; destruct e'; reflexivity.
+    + destruct (IH Hok) as [tss [H1 H2]]. pose proof (tok_ok_child a i Ha) as Hai.
+      destruct side.
+      * exists ([] :: tss). split; [constructor; [apply (spells_erased true)|exact H1]|]. cbn [concat app]. exact H2.
+      * exists (ttoks (child a i) :: tss). split.
+        -- constructor; [|exact H1]. unfold item_spec; cbn [fst snd survives negb]. unfold spells; cbn [em].
+           rewrite erase_mk; cbn. apply lex_tprint. exact Hai.
+        -- cbn [concat flat_map]. rewrite H2. reflexivity.
+    + destruct (IH Hok) as [tss [H1 H2]]. pose proof (tok_ok_child b j Hb) as Hbj.
+      destruct side.
+      * exists (ttoks (child b j) :: tss). split.
+        -- constructor; [|exact H1]. unfold item_spec; cbn [fst snd survives negb]. unfold spells; cbn [em].
+           rewrite erase_mk; cbn. apply lex_tprint. exact Hbj.
+        -- cbn [concat flat_map]. rewrite H2. reflexivity.
+      * exists ([] :: tss). split; [constructor; [apply (spells_erased false)|exact H1]|]. cbn [concat app]. exact H2.
+Qed.
+
+Lemma spells_kvp : forall side K V tk tv, spells side K tk -> spells side V tv ->
+  spells side (K ++ mk Plain [58; 32] ++ V) (tk ++ TCol :: tv).
+Proof.
+  intros side K V tk tv HK HV r Hr. rewrite !erase_app, erase_mk_plain, <- !app_assoc.
+  cbn [app]. rewrite (HK (58 :: 32 :: erase (em side) V ++ r) eq_refl). rewrite (lex_punct 58 TCol) by reflexivity. rewrite lex_sep by reflexivity.
+  rewrite (HV r Hr). reflexivity.
+Qed.
+
+Theorem redit_spells : forall side e, Pspells side e.
+Proof.
+  intro side. apply edit_ind2; unfold Pspells.
+  - intros c lay n a b Ha Hb _. cbn [redit proj]. destruct (0 <? c); [apply spells_from_to|apply spells_plain]; assumption.
+  - intros c lay n a b Ha Hb _. cbn [redit proj]. destruct (0 <? c); [apply spells_from_to|apply spells_plain]; assumption.
+  - intros c ops lay n a b Ha Hb Hok. cbn [redit proj]. unfold spells. rewrite erase_rstredit.
+    intros r Hr. apply lex_jstring. apply nonneg_ops. exact Hok.
+  - intros k c subs IH lay n a b Ha Hb Hok. cbn [redit proj].
+    destruct (is_seq_kind k) eqn:Ek.
+    + destruct (items_spec side lay n k a b subs Ha Hb IH Hok) as [tss [H1 H2]].
+      destruct a as [l|x y cs|x ka va|x cs|cs]; cbn [brackets fst snd rebuild].
+      * apply spells_plain. exact Ha.
+      * cbn [ttoks]. rewrite <- H2. apply spells_rseq; [reflexivity|reflexivity|exact H1].
+      * apply spells_plain. exact Ha.
+      * cbn [ttoks]. rewrite <- H2. apply spells_rseq; [reflexivity|reflexivity|exact H1].
+      * cbn [ttoks]. rewrite <- H2. apply spells_rseq; [reflexivity|reflexivity|exact H1].
+    + destruct subs as [|[i j ke|i x|j x] [|[i' j' ve|i' x'|j' x'] [|s3 rest]]]; try (apply spells_plain; exact Ha).
+      inversion IH as [|? ? Hke IH']; subst. inversion IH' as [|? ? Hve _]; subst.
+      cbn [edit_ok] in Hok. apply andb_prop in Hok as [Hoke Hok]. apply andb_prop in Hok as [Hove _].
+      pose proof (tok_ok_child a 0 Ha) as Ha0. pose proof (tok_ok_child a 1 Ha) as Ha1.
+      pose proof (tok_ok_child b 0 Hb) as Hb0. pose proof (tok_ok_child b 1 Hb) as Hb1.
+      cbn [ttoks]. apply spells_kvp.
+      * destruct ke; try (destruct (0 <? cost _); [apply Hke; assumption|apply spells_plain; assumption]).
+        apply Hke; assumption.
+      * destruct ve; try (destruct (0 <? cost _); [apply Hve; assumption|apply spells_plain; assumption]).
+        apply Hve; assumption.
+Qed.
+
+Lemma nproj_eq : forall side a b e,
+  nproj side a b e = match e with EComp _ _ _ => proj side a b e | _ => if 0 <? cost e then proj side a b e else a end.
+Proof. reflexivity. Qed.
+
+(* the rendering of a whole diff *)
+Theorem jrender_spells : forall side lay a b e, tok_ok a = true -> tok_ok b = true -> edit_ok e = true ->
+  toks (erase (em side) (jrender lay a b e)) = ttoks (nproj side a b e).
+Proof.
+  intros side lay a b e Ha Hb He. unfold jrender, rnode, nproj.
+  assert (G : forall s t, spells side s (ttoks t) -> toks (erase (em side) s) = ttoks t).
+  { intros s t H. pose proof (H [] eq_refl) as E. rewrite !app_nil_r in E. exact E. }
+  apply G.
+  destruct e; try (destruct (0 <? cost _); [apply redit_spells; assumption|apply spells_plain; assumption]).
+  apply redit_spells; assumption.
+Qed.
+
+(* ------------------------------------------------------------------ change marks *)
+
+Definition is_keep (o : sop) : bool := match o with SKeep _ => true | _ => false end.
+
+(* "nothing to show": the rendering of (a, b, e) through formatter.print(printer, EDIT) is unmarked *)
+Fixpoint qe (a : tree) (e : edit) {struct e} : bool :=
+  match e with
+  | EMatch c | EReplace c => negb (0 <? c)
+  | EStr _ ops => forallb is_keep ops
+  | EComp k _ subs =>
+      if is_seq_kind k then
+        match brackets (false, false) a with
+        | Some _ =>
+            (fix all (ss : list sub) : bool :=
+               match ss with
+               | [] => true
+               | SPair i _ e' :: r => qe (child a i) e' && all r
+               | _ :: _ => false
+               end) subs
+        | None => true
+        end
+      else
+        match subs with
+        | [SPair _ _ ke; SPair _ _ ve] =>
+            (match ke with EComp _ _ _ => qe (child a 0) ke | _ => negb (0 <? cost ke) || qe (child a 0) ke end) &&
+            (match ve with EComp _ _ _ => qe (child a 1) ve | _ => negb (0 <? cost ve) || qe (child a 1) ve end)
+        | _ => true
+        end
+  end.
+(* ... through formatter.print(printer, NODE) *)
+Definition qn (a : tree) (e : edit) : bool :=
+  match e with EComp _ _ _ => qe a e | _ => negb (0 <? cost e) || qe a e end.
+
+Lemma marks_nil_app : forall s t, marks (s ++ t) = [] <-> marks s = [] /\ marks t = [].
+Proof. intros. rewrite marks_app. split; [apply app_eq_nil|intros [-> ->]; reflexivity]. Qed.
+
+Lemma marks_mk_nil : forall m s, marks (mk m s) = [] <-> m = Plain \/ s = [].
+Proof.
+  intros m s. split.
+  - intro H. destruct m; [left; reflexivity|right..]; (rewrite marks_mk_other in H by congruence; destruct s; [reflexivity|discriminate]).
+  - intros [->| ->]; [apply marks_mk_plain|reflexivity].
+Qed.
+
+Lemma seq_text_nonempty : forall o c spi spc xs, seq_text o c spi spc xs <> [].
+Proof. intros. unfold seq_text. destruct xs; discriminate. Qed.
+
+Lemma tprint_nonempty : forall lay n t, tok_ok t = true -> tprint lay n t <> [].
+Proof.
+  intros lay n t. revert n. induction t as [l|x y cs IH|x k v IHk IHv|x cs IH|cs IH] using tree_ind2; intros n Hok;
+    cbn [tprint]; try apply seq_text_nonempty.
+  - cbn in Hok. unfold leaf_ok, leaf_text in *. destruct (lk l); try discriminate.
+    + apply andb_prop in Hok as [H _]. destruct (ltext l); [discriminate|congruence].
+    + apply andb_prop in Hok as [H _]. destruct (ltext l); [discriminate|congruence].
+    + destruct (str_eqb _ _); discriminate.
+  - intro H. apply app_eq_nil in H as [_ H]. discriminate.
+Qed.
+
+Lemma arrow_marked : marks arrow <> [].
+Proof. discriminate. Qed.
+
+Lemma from_to_marked : forall lay n a b, marks (from_to lay n a b) <> [].
+Proof.
+  intros. unfold from_to. intro H. apply marks_nil_app in H as [_ H]. apply marks_nil_app in H as [H _].
+  exact (arrow_marked H).
+Qed.
+
+Lemma escape_cp_nonempty : forall c, escape_cp c <> [].
+Proof.
+  intro c. unfold escape_cp. destruct (short_escape c); [discriminate|].
+  destruct ((32 <=? c) && (c <=? 126)); [discriminate|]. destruct (c <? 65536); discriminate.
+Qed.
+
+Lemma escape_string_nil : forall s, escape_string s = [] -> s = [].
+Proof.
+  intros [|c s] H; [reflexivity|]. unfold escape_string in H. cbn in H. apply app_eq_nil in H as [H _].
+  exfalso. exact (escape_cp_nonempty c H).
+Qed.
+
+Lemma marks_runs : forall rs ad, marks (mk Removed (escape_string rs) ++ mk Inserted (escape_string ad)) = [] <-> rs = [] /\ ad = [].
+Proof.
+  intros rs ad. rewrite marks_nil_app, !marks_mk_nil. split.
+  - intros [[H|H] [H'|H']]; try discriminate. split; apply escape_string_nil; assumption.
+  - intros [-> ->]. split; right; reflexivity.
+Qed.
+
+Lemma marks_rstr : forall ops rs ad, marks (rstr rs ad ops) = [] <-> rs = [] /\ ad = [] /\ forallb is_keep ops = true.
+Proof.
+  induction ops as [|o ops IH]; intros rs ad.
+  - cbn [rstr forallb]. rewrite marks_runs. tauto.
+  - destruct o as [c|c d|c|d]; cbn [rstr forallb is_keep andb].
+    + rewrite app_assoc, marks_nil_app, marks_runs, marks_nil_app, IH. rewrite marks_mk_plain. tauto.
+    + rewrite IH. split; [intros [H _]|intros [_ [_ H]]; discriminate]. destruct rs; discriminate.
+    + rewrite app_assoc, marks_nil_app, marks_runs, IH. split; [intros [_ [H _]]|intros [_ [_ H]]]; discriminate.
+    + rewrite app_assoc, marks_nil_app, marks_runs, IH. split; [intros [_ [_ [H _]]]|intros [_ [_ H]]]; discriminate.
+Qed.
+
+Lemma marks_rstredit : forall ops, marks (rstredit ops) = [] <-> forallb is_keep ops = true.
+Proof.
+  intro ops. unfold rstredit.
+  change ((34, Plain) :: rstr [] [] ops ++ [(34, Plain)]) with (mk Plain [34] ++ rstr [] [] ops ++ mk Plain [34]).
+  rewrite !marks_nil_app, marks_rstr, !marks_mk_plain. tauto.
+Qed.
+
+Lemma first_mark_plain : forall s, marks s = [] -> first_mark s = Plain.
+Proof. intros [|[c m] s] H; [reflexivity|]. cbn in *. destruct m; try discriminate. reflexivity. Qed.
+
+Lemma marks_lead : forall join n body, marks body = [] -> marks (item_lead join n body) = [].
+Proof.
+  intros join n body H. unfold item_lead. destruct join; [reflexivity|].
+  rewrite (first_mark_plain body H). cbn. apply marks_mk_plain.
+Qed.
+
+Lemma marks_ritems : forall join n items first,
+  Forall (fun it => fst it <> IKeep -> marks (snd it) <> []) items ->
+  (marks (ritems join n first 0 0 items) = [] <-> Forall (fun it => fst it = IKeep /\ marks (snd it) = []) items).
+Proof.
+  intros join n items. induction items as [|[k body] items IH]; intros first HF.
+  - cbn. split; [constructor|reflexivity].
+  - inversion HF as [|? ? Hk HF']; subst. cbn [fst snd] in Hk.
+    destruct k.
+    + assert (E : marks (ritems join n first 0 0 ((IKeep, body) :: items)) = [] <->
+                  marks body = [] /\ marks (ritems join n false 0 0 items) = []).
+      { destruct first; cbn [ritems Nat.min Nat.sub].
+        - rewrite !marks_nil_app. split; [tauto|]. intros [H1 H2]. repeat split; auto. apply marks_lead. exact H1.
+        - change ((44, Plain) :: item_lead join n body ++ body ++ ritems join n false 0 0 items)
+            with (mk Plain [44] ++ item_lead join n body ++ body ++ ritems join n false 0 0 items).
+          rewrite !marks_nil_app, marks_mk_plain. split; [tauto|]. intros [H1 H2]. repeat split; auto. apply marks_lead. exact H1. }
+      rewrite E, (IH false HF'). split.
+      * intros [H1 H2]. constructor; auto.
+      * intro H. inversion H as [|? ? [_ H1] H2]; subst. auto.
+    + split.
+      * intro H. exfalso. apply Hk; [discriminate|].
+        destruct first; cbn [ritems Nat.min Nat.sub] in H.
+        -- apply marks_nil_app in H as [_ H]. apply marks_nil_app in H as [H _]. exact H.
+        -- cbn in H. discriminate.
+      * intro H. inversion H as [|? ? [H1 _] _]; discriminate.
+    + split.
+      * intro H. exfalso. apply Hk; [discriminate|].
+        destruct first; cbn [ritems Nat.min Nat.sub] in H.
+        -- apply marks_nil_app in H as [_ H]. apply marks_nil_app in H as [H _]. exact H.
+        -- cbn in H. discriminate.
+      * intro H. inversion H as [|? ? [H1 _] _]; discriminate.
+Qed.
+
+Lemma marks_rseq : forall open close join n ne items,
+  Forall (fun it => fst it <> IKeep -> marks (snd it) <> []) items ->
+  (marks (rseq open close join n ne items) = [] <-> Forall (fun it => fst it = IKeep /\ marks (snd it) = []) items).
+Proof.
+  intros open close join n ne items HF. unfold rseq.
+  change ((open, Plain) :: ritems join (S n) true 0 0 items ++ (if ne then mk Plain (sep join n) else []) ++ [(close, Plain)])
+    with (mk Plain [open] ++ ritems join (S n) true 0 0 items ++ (if ne then mk Plain (sep join n) else []) ++ mk Plain [close]).
+  rewrite !marks_nil_app, !marks_mk_plain, (marks_ritems join (S n) items true HF).
+  assert (marks (if ne then mk Plain (sep join n) else []) = []) by (destruct ne; [apply marks_mk_plain|reflexivity]).
+  tauto.
+Qed.
+
+Definition Pmarks (e : edit) : Prop :=
+  forall lay n a b, tok_ok a = true -> tok_ok b = true -> (marks (redit lay n a b e) = [] <-> qe a e = true).
+
+Lemma marks_plain_iff : forall lay n t (P : Prop), P -> (marks (mk Plain (tprint lay n t)) = [] <-> P).
+Proof. intros. rewrite marks_mk_plain. tauto. Qed.
+
+Lemma marks_mf : forall c lay n a b,
+  marks (if 0 <? c then from_to lay n a b else mk Plain (tprint lay n b)) = [] <-> negb (0 <? c) = true.
+Proof.
+  intros. destruct (0 <? c); cbn [negb].
+  - split; [intro H; exfalso; exact (from_to_marked _ _ _ _ H)|discriminate].
+  - rewrite marks_mk_plain. tauto.
+Qed.
+
+Lemma marks_items : forall lay n k a b subs,
+  tok_ok a = true -> tok_ok b = true ->
+  Forall (fun s => match s with SPair _ _ e => Pmarks e | _ => True end) subs ->
+  let items :=
+      ((fix items (ss : list sub) : list (ikind * stream) :=
+          match ss with
+          | [] => []
+          | SPair i j e' :: r =>
+              (IKeep,
+               match k, e' with
+               | KMultiSet, EMatch c => if 0 <? c then from_to lay (S n) (child a i) (child b j)
+                                        else mk Plain (tprint lay (S n) (child a i))
+               | _, _ => redit lay (S n) (child a i) (child b j) e'
+               end) :: items r
+          | SRem i _ :: r => (IRem, mk Removed (tprint lay (S n) (child a i))) :: items r
+          | SIns j _ :: r => (IIns, mk Inserted (tprint lay (S n) (child b j))) :: items r
+          end) subs) in
+  Forall (fun it => fst it <> IKeep -> marks (snd it) <> []) items /\
+  (Forall (fun it => fst it = IKeep /\ marks (snd it) = []) items <->
+   (fix all (ss : list sub) : bool :=
+      match ss with
+      | [] => true
+      | SPair i _ e' :: r => qe (child a i) e' && all r
+      | _ :: _ => false
+      end) subs = true).
+Proof.
+  intros lay n k a b subs Ha Hb HF. cbv zeta.
+  induction HF as [|s subs Hs HF [IH1 IH2]].
+  - split; [constructor|]. split; [reflexivity|constructor].
+  - destruct s as [i j e'|i c|j c].
+    + pose proof (tok_ok_child a i Ha) as Hai. pose proof (tok_ok_child b j Hb) as Hbj.
+      split; [constructor; [cbn; congruence|exact IH1]|].
+      assert (E : marks (match k, e' with
+                         | KMultiSet, EMatch c => if 0 <? c then from_to lay (S n) (child a i) (child b j)
+                                                  else mk Plain (tprint lay (S n) (child a i))
+                         | _, _ => redit lay (S n) (child a i) (child b j) e'
+                         end) = [] <-> qe (child a i) e' = true).
+      { pose proof (Hs lay (S n) (child a i) (child b j) Hai Hbj) as G.
+        destruct k; try exact G. destruct e'; try exact G. cbn [qe].
+        destruct (0 <? c); cbn [negb].
+        - split; [intro H; exfalso; exact (from_to_marked _ _ _ _ H)|discriminate].
+        - rewrite marks_mk_plain. tauto. }
+      split.
+      * intro H. inversion H as [|? ? [_ H1] H2]; subst. cbn [snd] in H1.
+        apply andb_true_intro. split; [apply E; exact H1|apply IH2; exact H2].
+      * intro H. apply andb_prop in H as [H1 H2]. constructor; [split; [reflexivity|apply E; exact H1]|apply IH2; exact H2].
+    + pose proof (tok_ok_child a i Ha) as Hai. split.
+      * constructor; [|exact IH1]. intros _. cbn [snd]. rewrite marks_mk_other by discriminate.
+        pose proof (tprint_nonempty lay (S n) _ Hai). destruct (tprint lay (S n) (child a i)); [congruence|discriminate].
+      * split; [|discriminate]. intro H. inversion H as [|? ? [H1 _] _]. discriminate.
+    + pose proof (tok_ok_child b j Hb) as Hbj. split.
+      * constructor; [|exact IH1]. intros _. cbn [snd]. rewrite marks_mk_other by discriminate.
+        pose proof (tprint_nonempty lay (S n) _ Hbj). destruct (tprint lay (S n) (child b j)); [congruence|discriminate].
+      * split; [|discriminate]. intro H. inversion H as [|? ? [H1 _] _]. discriminate.
+Qed.
+
+Theorem marks_redit : forall e, Pmarks e.
+Proof.
+  apply edit_ind2; unfold Pmarks.
+  - intros c lay n a b _ _. cbn [redit qe]. apply marks_mf.
+  - intros c lay n a b _ _. cbn [redit qe]. apply marks_mf.
+  - intros c ops lay n a b _ _. cbn [redit qe]. apply marks_rstredit.
+  - intros k c subs IH lay n a b Ha Hb. cbn [redit qe].
+    destruct (is_seq_kind k) eqn:Ek.
+    + destruct (marks_items lay n k a b subs Ha Hb IH) as [H1 H2].
+      destruct a as [l|x y cs|x ka va|x cs|cs]; cbn [brackets fst snd];
+        try (rewrite marks_mk_plain; tauto);
+        (rewrite marks_rseq by exact H1; exact H2).
+    + destruct subs as [|[i j ke|i x|j x] [|[i' j' ve|i' x'|j' x'] [|s3 rest]]]; try (rewrite marks_mk_plain; tauto).
+      inversion IH as [|? ? Hke IH']; subst. inversion IH' as [|? ? Hve _]; subst.
+      pose proof (tok_ok_child a 0 Ha) as Ha0. pose proof (tok_ok_child a 1 Ha) as Ha1.
+      pose proof (tok_ok_child b 0 Hb) as Hb0. pose proof (tok_ok_child b 1 Hb) as Hb1.
+      rewrite !marks_nil_app, marks_mk_plain, andb_true_iff.
+      assert (G : forall x y e', Pmarks e' -> tok_ok x = true -> tok_ok y = true ->
+                 (marks (match e' with
+                         | EComp _ _ _ => redit lay n x y e'
+                         | _ => if 0 <? cost e' then redit lay n x y e' else mk Plain (tprint lay n x)
+                         end) = [] <->
+                  match e' with EComp _ _ _ => qe x e' | _ => negb (0 <? cost e') || qe x e' end = true)).
+      { intros x y e' He' Hx Hy. pose proof (He' lay n x y Hx Hy) as G.
+        destruct e'; try exact G; destruct (0 <? cost _); cbn [negb orb]; try exact G; rewrite marks_mk_plain; tauto. }
+      rewrite (G _ _ ke Hke Ha0 Hb0), (G _ _ ve Hve Ha1 Hb1). tauto.
+Qed.
+
+Theorem marks_jrender : forall lay a b e, tok_ok a = true -> tok_ok b = true ->
+  (marks (jrender lay a b e) = [] <-> qn a e = true).
+Proof.
+  intros lay a b e Ha Hb. unfold jrender, rnode, qn.
+  pose proof (marks_redit e lay 0%nat a b Ha Hb) as G.
+  destruct e; try exact G; destruct (0 <? cost _); cbn [negb orb]; try exact G; rewrite marks_mk_plain; tauto.
+Qed.
+
+(* ------------------------------------------------------------------ no marks <-> cost 0, for well-priced scripts *)
+
+(* Match / Replace cost >= 0, every Remove / Insert costs > 0 (the pricing of edits.py with a positive
+   penalty or a non-empty node; FALSE for the zero-size leaves of finding D16) *)
+Fixpoint pos_costs (e : edit) : bool :=
+  match e with
+  | EMatch c | EReplace c => 0 <=? c
+  | EStr _ _ => true
+  | EComp _ _ subs =>
+      (fix all (ss : list sub) : bool :=
+         match ss with
+         | [] => true
+         | SPair _ _ e' :: r => pos_costs e' && all r
+         | SRem _ c :: r | SIns _ c :: r => (0 <? c) && all r
+         end) subs
+  end.
+
+(* a KeyValuePairEdit lists exactly its key edit and its value edit *)
+Fixpoint kvp2 (e : edit) : bool :=
+  match e with
+  | EComp k _ subs =>
+      (if is_seq_kind k then true else match subs with [SPair _ _ _; SPair _ _ _] => true | _ => false end) &&
+      (fix all (ss : list sub) : bool :=
+         match ss with
+         | [] => true
+         | SPair _ _ e' :: r => kvp2 e' && all r
+         | _ :: r => all r
+         end) subs
+  | _ => true
+  end.
+
+Lemma zsum_cons : forall x l, zsum (x :: l) = x + zsum l.
+Proof. reflexivity. Qed.
+
+Lemma zsum_sop_nonneg : forall ops, 0 <= zsum (map sop_cost ops).
+Proof.
+  induction ops as [|o ops IH]; [cbn; lia|]. cbn [map]. rewrite zsum_cons. destruct o; cbn [sop_cost]; lia.
+Qed.
+
+Lemma keep_iff_zero : forall ops, forallb is_keep ops = true <-> zsum (map sop_cost ops) = 0.
+Proof.
+  induction ops as [|o ops IH]; [cbn; tauto|]. pose proof (zsum_sop_nonneg ops).
+  cbn [map forallb]. rewrite zsum_cons.
+  destruct o; cbn [is_keep sop_cost andb]; rewrite ?IH; split; intros; try lia; try discriminate.
+Qed.
+
+Definition Pnonneg (e : edit) : Prop := additive e = true -> pos_costs e = true -> 0 <= cost e.
+
+Lemma cost_nonneg : forall e, Pnonneg e.
+Proof.
+  apply edit_ind2; unfold Pnonneg; cbn [cost additive pos_costs].
+  - intros c _ H. apply Z.leb_le in H. exact H.
+  - intros c _ H. apply Z.leb_le in H. exact H.
+  - intros c ops H _. apply Z.eqb_eq in H. subst. apply zsum_sop_nonneg.
+  - intros k c subs IH Ha Hp. apply andb_prop in Ha as [Hc Ha]. apply Z.eqb_eq in Hc. subst c.
+    induction IH as [|s subs Hs IH IH']; [cbn; lia|]. cbn [map]. rewrite zsum_cons.
+    destruct s as [i j e'|i x|j x]; cbn [sub_cost].
+    + apply andb_prop in Ha as [Ha1 Ha2]. apply andb_prop in Hp as [Hp1 Hp2].
+      pose proof (Hs Ha1 Hp1). pose proof (IH' Ha2 Hp2). lia.
+    + apply andb_prop in Hp as [Hp1 Hp2]. apply Z.ltb_lt in Hp1. pose proof (IH' Ha Hp2). lia.
+    + apply andb_prop in Hp as [Hp1 Hp2]. apply Z.ltb_lt in Hp1. pose proof (IH' Ha Hp2). lia.
+Qed.
+
+Definition Pqe (e : edit) : Prop :=
+  forall a b, valid a b e = true -> kvp2 e = true -> additive e = true -> pos_costs e = true ->
+    (qe a e = true <-> cost e = 0).
+
+Lemma child_nth_error : forall a i x, nth_error (children a) i = Some x -> child a i = x.
+Proof. intros a i x H. unfold child. apply nth_error_nth. exact H. Qed.
+
+Lemma negb_pos_zero : forall c, 0 <= c -> (negb (0 <? c) = true <-> c = 0).
+Proof. intros c H. destruct (Z.ltb_spec 0 c); cbn; split; intros; try lia; try discriminate; reflexivity. Qed.
+
+Lemma qe_cost : forall e, Pqe e.
+Proof.
+  apply edit_ind2; unfold Pqe.
+  - intros c a b _ _ _ Hp. cbn in *. apply Z.leb_le in Hp. apply negb_pos_zero. exact Hp.
+  - intros c a b _ _ _ Hp. cbn in *. apply Z.leb_le in Hp. apply negb_pos_zero. exact Hp.
+  - intros c ops a b _ _ Ha _. cbn in *. apply Z.eqb_eq in Ha. subst c. apply keep_iff_zero.
+  - intros k c subs IH a b Hv Hk Ha Hp.
+    cbn [valid] in Hv. apply andb_prop in Hv as [Hv Hall]. apply andb_prop in Hv as [Hfit Hidx].
+    cbn [kvp2] in Hk. apply andb_prop in Hk as [Hshape Hk].
+    cbn [additive] in Ha. apply andb_prop in Ha as [Hc Ha]. apply Z.eqb_eq in Hc.
+    cbn [pos_costs] in Hp. cbn [cost]. subst c.
+    (* the per-sub-edit statement, shared by both kinds *)
+    assert (Hsubs : Forall (fun s => match s with
+                                     | SPair i j e' => exists x, nth_error (children a) i = Some x /\
+                                                        0 <= cost e' /\ (qe x e' = true <-> cost e' = 0)
+                                     | SRem _ c' | SIns _ c' => 0 < c'
+                                     end) subs).
+    { clear Hshape Hidx. induction IH as [|s subs Hs IH IH']; [constructor|].
+      destruct s as [i j e'|i x|j x].
+      - destruct (nth_error (children a) i) as [x|] eqn:Ei; [|discriminate].
+        destruct (nth_error (children b) j) as [y|] eqn:Ej; [|discriminate].
+        apply andb_prop in Hall as [Hv1 Hall]. apply andb_prop in Hk as [Hk1 Hk].
+        apply andb_prop in Ha as [Ha1 Ha]. apply andb_prop in Hp as [Hp1 Hp].
+        constructor; [|apply IH'; assumption].
+        exists x. split; [exact Ei|]. split; [apply cost_nonneg; assumption|apply (Hs x y); assumption].
+      - apply andb_prop in Hp as [Hp1 Hp]. apply Z.ltb_lt in Hp1. constructor; [exact Hp1|apply IH'; assumption].
+      - apply andb_prop in Hp as [Hp1 Hp]. apply Z.ltb_lt in Hp1. constructor; [exact Hp1|apply IH'; assumption]. }
+    cbn [qe]. destruct (is_seq_kind k) eqn:Ek.
+    + assert (Hb : exists p, brackets (false, false) a = Some p).
+      { destruct k, a, b; try discriminate; cbn; eauto. }
+      destruct Hb as [p ->].
+      clear -Hsubs. induction Hsubs as [|s subs Hs Hsubs0 IH]; [cbn; tauto|]. cbn [map]. rewrite zsum_cons.
+      destruct s as [i j e'|i x|j x]; cbn [sub_cost].
+      * destruct Hs as [x [Ei [H0 Hq]]]. rewrite (child_nth_error a i x Ei).
+        assert (0 <= zsum (map sub_cost subs)).
+        { clear -Hsubs0. induction Hsubs0 as [|s subs Hs _ IH]; [cbn; lia|]. cbn [map]. rewrite zsum_cons.
+          destruct s; cbn [sub_cost]; [destruct Hs as [? [_ [? _]]]|..]; lia. }
+        rewrite andb_true_iff, Hq, IH. lia.
+      * assert (0 <= zsum (map sub_cost subs)).
+        { clear -Hsubs0. induction Hsubs0 as [|s subs Hs _ IH]; [cbn; lia|]. cbn [map]. rewrite zsum_cons.
+          destruct s; cbn [sub_cost]; [destruct Hs as [? [_ [? _]]]|..]; lia. }
+        split; [discriminate|lia].
+      * assert (0 <= zsum (map sub_cost subs)).
+        { clear -Hsubs0. induction Hsubs0 as [|s subs Hs _ IH]; [cbn; lia|]. cbn [map]. rewrite zsum_cons.
+          destruct s; cbn [sub_cost]; [destruct Hs as [? [_ [? _]]]|..]; lia. }
+        split; [discriminate|lia].
+    + destruct subs as [|[i j ke|i x|j x] [|[i' j' ve|i' x'|j' x'] [|s3 rest]]]; try discriminate.
+      destruct k; try discriminate. cbn [ordered_kind] in Hidx. apply andb_prop in Hidx as [Hfi _].
+      cbn [flat_map from_idx app] in Hfi.
+      destruct a as [l|? ? ?|ake ka va|? ?|?]; try discriminate. cbn [children length seq] in Hfi.
+      cbn in Hfi. apply andb_prop in Hfi as [Hi Hfi]. apply andb_prop in Hfi as [Hi' _].
+      apply Nat.eqb_eq in Hi, Hi'. subst i i'.
+      pose proof (Forall_inv Hsubs) as H1. cbn beta iota in H1. destruct H1 as [x [Ex [H0 Hq]]].
+      pose proof (Forall_inv (Forall_inv_tail Hsubs)) as H2. cbn beta iota in H2. destruct H2 as [x' [Ex' [H0' Hq']]].
+      cbn in Ex, Ex'. inversion Ex; inversion Ex'; subst x x'.
+      cbn [map sub_cost zsum fold_right]. unfold child; cbn [children nth].
+      assert (G : forall x e', 0 <= cost e' -> (qe x e' = true <-> cost e' = 0) ->
+                  (match e' with EComp _ _ _ => qe x e' | _ => negb (0 <? cost e') || qe x e' end = true <-> cost e' = 0)).
+      { intros x e' Hn Hq0. destruct e'; try exact Hq0;
+          (rewrite orb_true_iff, Hq0, (negb_pos_zero _ Hn); tauto). }
+      rewrite andb_true_iff, (G ka ke H0 Hq), (G va ve H0' Hq'). lia.
+Qed.
+
+Theorem qn_cost : forall a b e, valid a b e = true -> kvp2 e = true -> additive e = true -> pos_costs e = true ->
+  (qn a e = true <-> cost e = 0).
+Proof.
+  intros a b e Hv Hk Ha Hp. pose proof (qe_cost e a b Hv Hk Ha Hp) as Hq.
+  pose proof (cost_nonneg e Ha Hp) as Hn. unfold qn.
+  destruct e; try exact Hq; (rewrite orb_true_iff, Hq, (negb_pos_zero _ Hn); tauto).
+Qed.
+
+(* ------------------------------------------------------------------ the projections ARE the documents
+   (ordered containers; for mappings the members appear in script order, see C06_first / C06_second) *)
+
+(* what C01 does not say: a pair matched at cost 0 prints the same on both sides (false for finding D4), and a
+   string edit is between two strings and costs something *)
+Fixpoint Faithful (a b : tree) (e : edit) {struct e} : Prop :=
+  match e with
+  | EMatch c | EReplace c => 0 < c \/ ttoks a = ttoks b
+  | EStr c _ => 0 < c /\ match a, b with Leaf x, Leaf y => lk x = KStr /\ lk y = KStr | _, _ => False end
+  | EComp _ _ subs =>
+      (fix all (ss : list sub) : Prop :=
+         match ss with
+         | [] => True
+         | SPair i j e' :: r => Faithful (child a i) (child b j) e' /\ all r
+         | _ :: r => all r
+         end) subs
+  end.
+
+Fixpoint ordered_only (e : edit) : bool :=
+  match e with
+  | EComp k _ subs =>
+      ordered_kind k &&
+      (fix all (ss : list sub) : bool :=
+         match ss with
+         | [] => true
+         | SPair _ _ e' :: r => ordered_only e' && all r
+         | _ :: r => all r
+         end) subs
+  | _ => true
+  end.
+
+Lemma str_eqb_eq : forall a b, str_eqb a b = true -> a = b.
+Proof.
+  induction a as [|x a IH]; destruct b as [|y b]; cbn; intro H; try discriminate; [reflexivity|].
+  apply andb_prop in H as [H1 H2]. apply Z.eqb_eq in H1. f_equal; auto.
+Qed.
+
+Lemma map_child_seq : forall a, map (child a) (seq 0 (length (children a))) = children a.
+Proof.
+  intro a. unfold child. generalize (children a) as l. intro l.
+  apply nth_ext with (d := dummy) (d' := dummy).
+  - rewrite map_length, seq_length. reflexivity.
+  - intros n Hn. rewrite map_length, seq_length in Hn.
+    rewrite (nth_indep _ dummy (nth 0 l dummy)) by (rewrite map_length, seq_length; exact Hn).
+    rewrite (map_nth (fun i => nth i l dummy)). rewrite seq_nth by exact Hn. reflexivity.
+Qed.
+
+Definition Pdoc (side : bool) (e : edit) : Prop :=
+  forall a b, valid a b e = true -> Faithful a b e -> ordered_only e = true -> kvp2 e = true ->
+    ttoks (proj side a b e) = ttoks (if side then b else a).
+
+Lemma proj_node_doc : forall side a b e, Pdoc side e -> valid a b e = true -> Faithful a b e -> ordered_only e = true ->
+  kvp2 e = true ->
+  ttoks (match e with
+         | EComp _ _ _ => proj side a b e
+         | _ => if 0 <? cost e then proj side a b e else a
+         end) = ttoks (if side then b else a).
+Proof.
+  intros side a b e He Hv Hf Ho Hk2. pose proof (He a b Hv Hf Ho Hk2) as G.
+  destruct e as [c|c|c ops|k c subs]; try exact G; cbn [cost]; destruct (0 <? c) eqn:Ec; try exact G.
+  - cbn in Hf. apply Z.ltb_ge in Ec. destruct Hf as [Hf|Hf]; [lia|]. destruct side; [exact Hf|reflexivity].
+  - cbn in Hf. apply Z.ltb_ge in Ec. destruct Hf as [Hf|Hf]; [lia|]. destruct side; [exact Hf|reflexivity].
+  - cbn in Hf. apply Z.ltb_ge in Ec. destruct Hf as [Hf _]. lia.
+Qed.
+
+Lemma proj_items_first : forall k a b subs,
+  is_seq_kind k = true -> ordered_kind k = true ->
+  Forall (fun s => match s with SPair _ _ e => Pdoc false e | _ => True end) subs ->
+  valid a b (EComp k 0 subs) = true -> Faithful a b (EComp k 0 subs) -> ordered_only (EComp k 0 subs) = true ->
+  kvp2 (EComp k 0 subs) = true ->
+  flat_map ttoks
+    ((fix items (ss : list sub) : list tree :=
+        match ss with
+        | [] => []
+        | SPair i j e' :: r =>
+            match k, e' with
+            | KMultiSet, EMatch c => if 0 <? c then child a i else child a i
+            | _, _ => proj false (child a i) (child b j) e'
+            end :: items r
+        | SRem i _ :: r => child a i :: items r
+        | SIns j _ :: r => items r
+        end) subs) = flat_map ttoks (map (child a) (flat_map from_idx subs)).
+Proof.
+  intros k a b subs Hk Hord IH Hv Hf Ho Hk2.
+  cbn [valid] in Hv. apply andb_prop in Hv as [_ Hv]. cbn [ordered_only] in Ho. apply andb_prop in Ho as [_ Ho].
+  cbn [kvp2] in Hk2. apply andb_prop in Hk2 as [_ Hk2].
+  cbn [Faithful] in Hf.
+  induction IH as [|s subs Hs IH IH']; [reflexivity|].
+  destruct s as [i j e'|i x|j x]; cbn [flat_map from_idx map app].
+  - destruct (nth_error (children a) i) as [x|] eqn:Ei; [|discriminate].
+    destruct (nth_error (children b) j) as [y|] eqn:Ej; [|discriminate].
+    apply andb_prop in Hv as [Hv1 Hv]. apply andb_prop in Ho as [Ho1 Ho]. destruct Hf as [Hf1 Hf].
+    apply andb_prop in Hk2 as [Hk21 Hk2].
+    rewrite (IH' Hv Hf Ho Hk2). f_equal.
+    rewrite <- (child_nth_error a i x Ei) in Hv1. rewrite <- (child_nth_error b j y Ej) in Hv1.
+    pose proof (Hs _ _ Hv1 Hf1 Ho1 Hk21) as G. cbn [negb] in G.
+    destruct k; try discriminate; exact G.
+  - rewrite (IH' Hv Hf Ho Hk2). reflexivity.
+  - apply (IH' Hv Hf Ho Hk2).
+Qed.
+
+Lemma proj_items_second : forall k a b subs,
+  is_seq_kind k = true -> ordered_kind k = true ->
+  Forall (fun s => match s with SPair _ _ e => Pdoc true e | _ => True end) subs ->
+  valid a b (EComp k 0 subs) = true -> Faithful a b (EComp k 0 subs) -> ordered_only (EComp k 0 subs) = true ->
+  kvp2 (EComp k 0 subs) = true ->
+  flat_map ttoks
+    ((fix items (ss : list sub) : list tree :=
+        match ss with
+        | [] => []
+        | SPair i j e' :: r =>
+            match k, e' with
+            | KMultiSet, EMatch c => if 0 <? c then child b j else child a i
+            | _, _ => proj true (child a i) (child b j) e'
+            end :: items r
+        | SRem i _ :: r => items r
+        | SIns j _ :: r => child b j :: items r
+        end) subs) = flat_map ttoks (map (child b) (flat_map to_idx subs)).
+Proof.
+  intros k a b subs Hk Hord IH Hv Hf Ho Hk2.
+  cbn [valid] in Hv. apply andb_prop in Hv as [_ Hv]. cbn [ordered_only] in Ho. apply andb_prop in Ho as [_ Ho].
+  cbn [kvp2] in Hk2. apply andb_prop in Hk2 as [_ Hk2].
+  cbn [Faithful] in Hf.
+  induction IH as [|s subs Hs IH IH']; [reflexivity|].
+  destruct s as [i j e'|i x|j x]; cbn [flat_map to_idx map app].
+  - destruct (nth_error (children a) i) as [x|] eqn:Ei; [|discriminate].
+    destruct (nth_error (children b) j) as [y|] eqn:Ej; [|discriminate].
+    apply andb_prop in Hv as [Hv1 Hv]. apply andb_prop in Ho as [Ho1 Ho]. destruct Hf as [Hf1 Hf].
+    apply andb_prop in Hk2 as [Hk21 Hk2].
+    rewrite (IH' Hv Hf Ho Hk2). f_equal.
+    rewrite <- (child_nth_error a i x Ei) in Hv1. rewrite <- (child_nth_error b j y Ej) in Hv1.
+    pose proof (Hs _ _ Hv1 Hf1 Ho1 Hk21) as G. cbn [negb] in G.
+    destruct k; try discriminate; exact G.
+  - apply (IH' Hv Hf Ho Hk2).
+  - rewrite (IH' Hv Hf Ho Hk2). reflexivity.
+Qed.
+
+Theorem proj_doc : forall side e, Pdoc side e.
+Proof.
+  intro side. apply edit_ind2; unfold Pdoc.
+  - intros c a b _ Hf _ _. cbn in *. destruct (0 <? c) eqn:Ec; [reflexivity|].
+    apply Z.ltb_ge in Ec. destruct Hf as [Hf|Hf]; [lia|]. destruct side; [reflexivity|symmetry; exact Hf].
+  - intros c a b _ Hf _ _. cbn in *. destruct (0 <? c) eqn:Ec; [reflexivity|].
+    apply Z.ltb_ge in Ec. destruct Hf as [Hf|Hf]; [lia|]. destruct side; [reflexivity|symmetry; exact Hf].
+  - intros c ops a b Hv Hf _ _. cbn in Hv, Hf. destruct Hf as [_ Hf].
+    destruct a as [x| | | |]; try contradiction. destruct b as [y| | | |]; try contradiction.
+    destruct Hf as [Hx Hy]. apply andb_prop in Hv as [H1 H2]. apply str_eqb_eq in H1, H2.
+    destruct side; cbn [proj ttoks]; unfold str_leaf, leaf_toks; cbn [lk ltext];
+      [rewrite Hy, H2|rewrite Hx, H1]; reflexivity.
+  - intros k c subs IH a b Hv Hf Ho Hk2.
+    assert (Hk20 : kvp2 (EComp k 0 subs) = true) by exact Hk2.
+    cbn [kvp2] in Hk2. apply andb_prop in Hk2 as [Hshape Hk2].
+    assert (Hv0 : valid a b (EComp k 0 subs) = true) by exact Hv.
+    assert (Hf0 : Faithful a b (EComp k 0 subs)) by exact Hf.
+    assert (Ho0 : ordered_only (EComp k 0 subs) = true) by exact Ho.
+    cbn [valid] in Hv. apply andb_prop in Hv as [Hv Hall]. apply andb_prop in Hv as [Hfit Hidx].
+    cbn [ordered_only] in Ho. apply andb_prop in Ho as [Hord Ho]. rewrite Hord in Hidx.
+    apply andb_prop in Hidx as [Hfi Hti]. apply nat_list_eqb_eq in Hfi, Hti.
+    cbn [proj]. destruct (is_seq_kind k) eqn:Ek.
+    + destruct k; try discriminate; destruct a as [l|x y cs|x ka va|x cs|cs]; try discriminate;
+        destruct b as [l'|x' y' ds|x' kb vb|x' ds|ds]; try discriminate; cbn [brackets rebuild ttoks];
+        (destruct side;
+         [ rewrite (proj_items_second _ _ _ subs Ek Hord IH Hv0 Hf0 Ho0 Hk20), Hti, map_child_seq; reflexivity
+         | rewrite (proj_items_first _ _ _ subs Ek Hord IH Hv0 Hf0 Ho0 Hk20), Hfi, map_child_seq; reflexivity ]).
+    + destruct k; try discriminate.
+      destruct a as [l|x y cs|x ka va|x cs|cs]; try discriminate.
+      destruct b as [l'|x' y' ds|x' kb vb|x' ds|ds]; try discriminate.
+      cbn [children length seq] in Hfi, Hti.
+      cbn [is_seq_kind] in Hshape.
+      destruct subs as [|[i j ke|i z|j z] [|[i' j' ve|i' z'|j' z'] [|s3 rest]]]; try discriminate. cbn in Hfi, Hti.
+      inversion Hfi; inversion Hti; subst i i' j j'.
+      pose proof (Forall_inv IH) as Hke. pose proof (Forall_inv (Forall_inv_tail IH)) as Hve. cbn beta iota in Hke, Hve.
+      cbn in Hall. apply andb_prop in Hall as [Hvk Hall]. apply andb_prop in Hall as [Hvv _].
+      cbn in Hf. destruct Hf as [Hfk [Hfv _]].
+      cbn in Ho. apply andb_prop in Ho as [Hok Ho]. apply andb_prop in Ho as [Hov _].
+      apply andb_prop in Hk2 as [Hkk Hk2]. apply andb_prop in Hk2 as [Hkv _].
+      unfold child in *; cbn [children nth] in *. cbn [ttoks].
+      rewrite (proj_node_doc side ka kb ke Hke Hvk Hfk Hok Hkk), (proj_node_doc side va vb ve Hve Hvv Hfv Hov Hkv).
+      destruct side; reflexivity.
+Qed.
+
+Theorem nproj_doc : forall side a b e, valid a b e = true -> Faithful a b e -> ordered_only e = true -> kvp2 e = true ->
+  ttoks (nproj side a b e) = ttoks (if side then b else a).
+Proof. intros side a b e Hv Hf Ho Hk. unfold nproj. apply proj_node_doc; auto. apply proj_doc. Qed.
+
+(* ------------------------------------------------------------------ the statements of C06 *)
+
+(* (1),(2) for ALL trees, scripts and layouts: what is left after deleting the inserted (removed) characters is,
+   token for token, the plain print of the document  nproj false (true) a b e  read off the script: a's (b's)
+   children where they are matched at a cost or removed (inserted), in script order.  "~" forgets only commas
+   and whitespace outside string literals (RenderSpec.toks); toks_tprint relates ttoks to tprint. *)
+Theorem C06_first_all : forall lay a b e, tok_ok a = true -> tok_ok b = true -> edit_ok e = true ->
+  toks (erase Inserted (jrender lay a b e)) = ttoks (nproj false a b e).
+Proof. intros. apply (jrender_spells false); assumption. Qed.
+
+Theorem C06_second_all : forall lay a b e, tok_ok a = true -> tok_ok b = true -> edit_ok e = true ->
+  toks (erase Removed (jrender lay a b e)) = ttoks (nproj true a b e).
+Proof. intros. apply (jrender_spells true); assumption. Qed.
+
+(* (3) no change marks exactly when the script shows nothing; for well-priced scripts: exactly at cost 0 *)
+Theorem C06_marks_all : forall lay a b e, tok_ok a = true -> tok_ok b = true ->
+  (marks (jrender lay a b e) = [] <-> qn a e = true).
+Proof. exact marks_jrender. Qed.
+
+Theorem C06_marks_cost_all : forall lay a b e, tok_ok a = true -> tok_ok b = true ->
+  valid a b e = true -> kvp2 e = true -> additive e = true -> pos_costs e = true ->
+  (marks (jrender lay a b e) = [] <-> cost e = 0).
+Proof.
+  intros lay a b e Ha Hb Hv Hk Had Hp. rewrite (marks_jrender lay a b e Ha Hb). apply (qn_cost a b e); assumption.
+Qed.
+
+(* ordered containers (lists, leaves, strings, key/value pairs): both projections are "~" the documents *)
+Theorem C06_ordered_partial_all : forall lay a b e,
+  tok_ok a = true -> tok_ok b = true -> edit_ok e = true ->
+  valid a b e = true -> Faithful a b e -> ordered_only e = true -> kvp2 e = true ->
+  sim (erase Inserted (jrender lay a b e)) (tprint lay 0 a) /\
+  sim (erase Removed (jrender lay a b e)) (tprint lay 0 b).
+Proof.
+  intros lay a b e Ha Hb He Hv Hf Ho Hk. unfold sim. split.
+  - rewrite (C06_first_all lay a b e Ha Hb He), (nproj_doc false a b e Hv Hf Ho Hk), toks_tprint by exact Ha. reflexivity.
+  - rewrite (C06_second_all lay a b e Ha Hb He), (nproj_doc true a b e Hv Hf Ho Hk), toks_tprint by exact Hb. reflexivity.
+Qed.
+
+(* the hypotheses are necessary: finding D4 (a zero-cost match of 1 and 1.0 is printed once) breaks Faithful,
+   finding D16 (removing "" from a list of leaves costs 0) breaks pos_costs *)
+Definition lf (k : lkind) (s : list Z) (n : Z) : tree := Leaf {| lk := k; ltext := s; lnum := n; lexp := 0 |}.
+
+Theorem C06_zero_cost_match_refuted :
+  exists lay a b e, tok_ok a = true /\ tok_ok b = true /\ edit_ok e = true /\ valid a b e = true /\
+                    ordered_only e = true /\ kvp2 e = true /\
+                    ~ sim (erase Removed (jrender lay a b e)) (tprint lay 0 b).
+Proof.
+  exists (true, true), (Lst true true [lf KInt [49] 1]),
+         (Lst true true [Leaf {| lk := KFloat; ltext := [49; 46; 48]; lnum := 1; lexp := 0 |}]), (EMatch 0).
+  repeat split; try reflexivity. unfold sim. vm_compute. discriminate.
+Qed.
+
+Theorem C06_marks_cost_refuted :
+  exists lay a b e, tok_ok a = true /\ tok_ok b = true /\ valid a b e = true /\ kvp2 e = true /\ additive e = true /\
+                    cost e = 0 /\ marks (jrender lay a b e) <> [].
+Proof.
+  exists (true, true), (Lst true true [lf KStr [] 0; lf KInt [49] 1]), (Lst true true [lf KInt [49] 1]),
+         (EComp KEditDist 0 [SRem 0 0; SPair 1 0 (EMatch 0)]).
+  repeat split; try reflexivity. vm_compute. discriminate.
+Qed.
+
+(* the hypotheses are satisfiable by a non-trivial script: [1, "ab"] -> [1, "ac", 2] *)
+Definition ex_a : tree := Lst true true [lf KInt [49] 1; lf KStr [97; 98] 0].
+Definition ex_b : tree := Lst true true [lf KInt [49] 1; lf KStr [97; 99] 0; lf KInt [50] 2].
+Definition ex_e : edit :=
+  EComp KEditDist 4 [SPair 0 0 (EMatch 0); SPair 1 1 (EStr 2 [SKeep 97; SAdd 99; SDel 98]); SIns 2 2].
+
+Example C06_hypotheses_inhabited :
+  tok_ok ex_a = true /\ tok_ok ex_b = true /\ edit_ok ex_e = true /\ valid ex_a ex_b ex_e = true /\
+  Faithful ex_a ex_b ex_e /\ ordered_only ex_e = true /\ kvp2 ex_e = true /\ additive ex_e = true /\
+  pos_costs ex_e = true /\ cost ex_e <> 0 /\ marks (jrender (false, false) ex_a ex_b ex_e) <> [].
+Proof.
+  repeat split; try reflexivity; try (vm_compute; discriminate); try (right; reflexivity); cbn; lia.
+Qed.
+
+Example C06_example : forall lay,
+  sim (erase Inserted (jrender lay ex_a ex_b ex_e)) (tprint lay 0 ex_a) /\
+  sim (erase Removed (jrender lay ex_a ex_b ex_e)) (tprint lay 0 ex_b).
+Proof.
+  intro lay. destruct C06_hypotheses_inhabited as [H1 [H2 [H3 [H4 [H5 [H6 [H7 _]]]]]]].
+  apply C06_ordered_partial_all; assumption.
+Qed.
+
+(* ------------------------------------------------------------------ reading a projection back (through C12) *)
+
+Definition jj : layout := (true, true).
+
+Lemma seq_text_join : forall o c xs,
+  seq_text o c [] [] xs = o :: match xs with [] => [] | x :: r => x ++ flat_map (fun t => 44 :: t) r end ++ [c].
+Proof. intros o c [|x r]; cbn; [reflexivity|]. rewrite <- app_assoc. reflexivity. Qed.
+
+(* first / last token of a printed tree *)
+Definition head_starts (ts : list tok) : bool := match ts with t :: _ => starts_value t | [] => false end.
+
+Lemma untoks_app_closed : forall ts p rest,
+  untoks p (ts ++ rest) = untoks p ts ++ untoks (match rev ts with t :: _ => ends_value t | [] => p end) rest.
+Proof.
+  induction ts as [|t ts IH]; intros p rest; [reflexivity|].
+  cbn [app untoks]. rewrite IH, <- !app_assoc. f_equal. f_equal. f_equal.
+  cbn [rev]. destruct (rev ts) as [|u us] eqn:E; cbn; [|reflexivity].
+  reflexivity.
+Qed.
+
+Definition value_toks (ts : list tok) : Prop :=
+  head_starts ts = true /\ match rev ts with t :: _ => ends_value t = true | [] => False end.
+
+Lemma ttoks_value : forall t, value_toks (ttoks t).
+Proof.
+  induction t as [l|x y cs IH|x k v IHk IHv|x cs IH|cs IH] using tree_ind2; unfold value_toks in *.
+  - cbn. unfold leaf_toks. destruct (lk l); cbn; auto.
+  - cbn [ttoks]. split; [reflexivity|]. rewrite app_comm_cons, rev_app_distr. cbn. reflexivity.
+  - cbn [ttoks]. destruct IHk as [Hk1 Hk2], IHv as [Hv1 Hv2]. split.
+    + destruct (ttoks k); [discriminate|exact Hk1].
+    + rewrite rev_app_distr. cbn [rev]. rewrite <- app_assoc.
+      destruct (rev (ttoks v)) as [|u us]; [contradiction|]. cbn. exact Hv2.
+  - cbn [ttoks]. split; [reflexivity|]. rewrite app_comm_cons, rev_app_distr. cbn. reflexivity.
+  - cbn [ttoks]. split; [reflexivity|]. rewrite app_comm_cons, rev_app_distr. cbn. reflexivity.
+Qed.
+
+Lemma untoks_value : forall ts p rest, value_toks ts ->
+  untoks p (ts ++ rest) = (if p then [44] else []) ++ untoks false ts ++ untoks true rest.
+Proof.
+  intros ts p rest [H1 H2]. rewrite untoks_app_closed.
+  destruct (rev ts) as [|u us]; [contradiction|]. rewrite H2. rewrite app_assoc. f_equal.
+  destruct ts as [|t ts]; [discriminate|]. cbn in H1. cbn [untoks]. rewrite H1. destruct p; reflexivity.
+Qed.
+
+Lemma untoks_items : forall (cs : list tree) (f : tree -> list Z),
+  Forall (fun c => untoks false (ttoks c) = f c) cs ->
+  forall p rest,
+  untoks p (flat_map ttoks cs ++ rest) =
+  match cs with
+  | [] => untoks p rest
+  | x :: r => (if p then [44] else []) ++ f x ++ flat_map (fun t => 44 :: t) (map f r) ++ untoks true rest
+  end.
+Proof.
+  intros cs f H. induction H as [|c cs Hc Hcs IH]; intros p rest; [reflexivity|].
+  cbn [flat_map]. rewrite <- app_assoc. rewrite (untoks_value _ p _ (ttoks_value c)). rewrite Hc.
+  f_equal. f_equal. rewrite (IH true rest). destruct cs as [|d ds]; [reflexivity|].
+  cbn [map flat_map app]. rewrite <- app_assoc. reflexivity.
+Qed.
+
+Theorem untoks_ttoks : forall t n, untoks false (ttoks t) = tprint jj n t.
+Proof.
+  induction t as [l|x y cs IH|x k v IHk IHv|x cs IH|cs IH] using tree_ind2; intro n.
+  - cbn. unfold leaf_toks, leaf_text. destruct (lk l); cbn; rewrite ?app_nil_r; reflexivity.
+  - cbn [ttoks tprint jj fst sep]. rewrite seq_text_join. cbn [untoks starts_value andb app tok_text ends_value].
+    f_equal. rewrite (untoks_items cs (tprint jj (S n))).
+    + destruct cs as [|c0 cs']; [reflexivity|]. cbn [map app untoks starts_value andb tok_text ends_value]. rewrite <- app_assoc. reflexivity.
+    + eapply Forall_impl; [|exact IH]. cbn. intros c Hc. apply Hc.
+  - cbn [ttoks tprint]. rewrite (untoks_value _ false _ (ttoks_value k)). cbn [app].
+    rewrite (IHk n). f_equal. cbn [untoks starts_value andb app tok_text ends_value].
+    f_equal. f_equal. rewrite <- (app_nil_r (ttoks v)). rewrite (untoks_value _ false _ (ttoks_value v)).
+    cbn [app untoks]. rewrite app_nil_r. apply IHv.
+  - cbn [ttoks tprint jj snd sep]. rewrite seq_text_join. cbn [untoks starts_value andb app tok_text ends_value].
+    f_equal. rewrite (untoks_items cs (tprint jj (S n))).
+    + destruct cs as [|c0 cs']; [reflexivity|]. cbn [map app untoks starts_value andb tok_text ends_value]. rewrite <- app_assoc. reflexivity.
+    + eapply Forall_impl; [|exact IH]. cbn. intros c Hc. apply Hc.
+  - cbn [ttoks tprint jj snd sep]. rewrite seq_text_join. cbn [untoks starts_value andb app tok_text ends_value].
+    f_equal. rewrite (untoks_items cs (tprint jj (S n))).
+    + destruct cs as [|c0 cs']; [reflexivity|]. cbn [map app untoks starts_value andb tok_text ends_value]. rewrite <- app_assoc. reflexivity.
+    + eapply Forall_impl; [|exact IH]. cbn. intros c Hc. apply Hc.
+Qed.
+
+(* JSON-shaped trees: mapping members are key/value pairs with string keys; pairs occur nowhere else *)
+Definition is_str_leaf (t : tree) : bool := match t with Leaf l => lkind_eqb (lk l) KStr | _ => false end.
+Fixpoint jshape (t : tree) : bool :=
+  match t with
+  | Leaf _ => true
+  | Lst _ _ cs => forallb (fun c => negb (is_kvp c) && jshape c) cs
+  | Kvp _ k v => is_str_leaf k && negb (is_kvp v) && jshape v
+  | MSet _ cs | FDict cs => forallb (fun c => is_kvp c && jshape c) cs
+  end.
+
+Lemma leaf_text_jp : forall lay n l, leaf_text l = jp lay n (leaf_value l).
+Proof.
+  intros lay n l. unfold leaf_text, leaf_value. destruct (lk l); cbn; try reflexivity;
+    destruct (str_eqb (ltext l) s_True); reflexivity.
+Qed.
+
+Definition Pjp (lay : layout) (t : tree) : Prop :=
+  forall n, jshape t = true ->
+    match t with
+    | Kvp _ _ v => tprint lay n v = jp lay n (value_of v)
+    | _ => tprint lay n t = jp lay n (value_of t)
+    end.
+
+Lemma members_jp : forall lay n cs,
+  Forall (Pjp lay) cs -> forallb (fun c => is_kvp c && jshape c) cs = true ->
+  map (tprint lay (S n)) cs =
+  map (fun kv : list Z * jvalue => let (k, x) := kv in jstring k ++ [58; 32] ++ jp lay (S n) x)
+      (map (fun c => match c with Kvp _ (Leaf k) v => (ltext k, value_of v) | _ => ([], value_of c) end) cs).
+Proof.
+  intros lay n cs IH Hs. induction IH as [|c cs Hc IH IH']; [reflexivity|].
+  cbn in Hs. apply andb_prop in Hs as [H1 H2]. apply andb_prop in H1 as [H1 H3].
+  cbn [map]. rewrite (IH' H2). f_equal.
+  destruct c as [|? ? ?|z kk vv|? ?|?]; try discriminate.
+  pose proof (Hc (S n) H3) as G. cbn in G. cbn in H3.
+  apply andb_prop in H3 as [H3 _]. apply andb_prop in H3 as [H3 _].
+  destruct kk as [kl| | | |]; try discriminate. cbn [tprint]. rewrite G.
+  unfold is_str_leaf in H3. unfold leaf_text. destruct (lk kl); try discriminate. reflexivity.
+Qed.
+
+Theorem tprint_jp_gen : forall lay t, Pjp lay t.
+Proof.
+  intros lay t. induction t as [l|x y cs IH|x k v IHk IHv|x cs IH|cs IH] using tree_ind2; intros n Hs.
+  - cbn. apply leaf_text_jp.
+  - cbn [tprint value_of jp]. f_equal. rewrite map_map. apply map_ext_in. intros c Hc.
+    cbn in Hs. rewrite forallb_forall in Hs. pose proof (Hs c Hc) as H. apply andb_prop in H as [H1 H2].
+    rewrite Forall_forall in IH. pose proof (IH c Hc (S n) H2) as G.
+    destruct c; try exact G. discriminate.
+  - cbn in Hs. apply andb_prop in Hs as [Hs H3]. apply andb_prop in Hs as [H1 H2].
+    pose proof (IHv n H3) as G. destruct v; try exact G. discriminate.
+  - cbn [tprint value_of jp]. f_equal. apply members_jp; assumption.
+  - cbn [tprint value_of jp]. f_equal. apply members_jp; assumption.
+Qed.
+
+Corollary tprint_jp : forall lay n t, jshape t = true -> is_kvp t = false -> tprint lay n t = jp lay n (value_of t).
+Proof.
+  intros lay n t Hs Hk. pose proof (tprint_jp_gen lay t n Hs) as G. destruct t; try exact G. discriminate.
+Qed.
+
+(* reading the text of any token list that is the token list of a JSON-shaped, well-formed tree *)
+Theorem reads_ttoks : forall s t, toks s = ttoks t -> jshape t = true -> is_kvp t = false ->
+  jwfb false (value_of t) = true -> jparse_lenient s = Some (value_of t).
+Proof.
+  intros s t E Hs Hk Hw. unfold jparse_lenient. rewrite E, (untoks_ttoks t 0%nat), (tprint_jp jj 0 t Hs Hk).
+  apply parse_print. exact Hw.
+Qed.
+
+(* the lenient reader on a projection of the rendering: the document the script spells for that side ... *)
+Theorem C06_reads_all : forall side lay a b e, tok_ok a = true -> tok_ok b = true -> edit_ok e = true ->
+  jshape (nproj side a b e) = true -> is_kvp (nproj side a b e) = false ->
+  jwfb false (value_of (nproj side a b e)) = true ->
+  jparse_lenient (erase (em side) (jrender lay a b e)) = Some (value_of (nproj side a b e)).
+Proof.
+  intros side lay a b e Ha Hb He Hs Hk Hw. apply reads_ttoks; auto. apply jrender_spells; assumption.
+Qed.
+
+(* ... which, for valid scripts over ordered containers, is the document itself (corollary through C12) *)
+Theorem C06_reads_ordered_all : forall lay a b e,
+  tok_ok a = true -> tok_ok b = true -> edit_ok e = true ->
+  valid a b e = true -> Faithful a b e -> ordered_only e = true -> kvp2 e = true ->
+  (jshape a = true -> is_kvp a = false -> jwfb false (value_of a) = true ->
+   jparse_lenient (erase Inserted (jrender lay a b e)) = Some (value_of a)) /\
+  (jshape b = true -> is_kvp b = false -> jwfb false (value_of b) = true ->
+   jparse_lenient (erase Removed (jrender lay a b e)) = Some (value_of b)).
+Proof.
+  intros lay a b e Ha Hb He Hv Hf Ho Hk. split; intros Hs Hkv Hw; apply reads_ttoks; auto.
+  - rewrite (C06_first_all lay a b e Ha Hb He). apply (nproj_doc false a b e Hv Hf Ho Hk).
+  - rewrite (C06_second_all lay a b e Ha Hb He). apply (nproj_doc true a b e Hv Hf Ho Hk).
+Qed.
+
+Example C06_reads_example : forall lay,
+  jparse_lenient (erase Inserted (jrender lay ex_a ex_b ex_e)) = Some (value_of ex_a) /\
+  jparse_lenient (erase Removed (jrender lay ex_a ex_b ex_e)) = Some (value_of ex_b).
+Proof.
+  intro lay. destruct C06_hypotheses_inhabited as [H1 [H2 [H3 [H4 [H5 [H6 [H7 _]]]]]]].
+  destruct (C06_reads_ordered_all lay ex_a ex_b ex_e H1 H2 H3 H4 H5 H6 H7) as [Ga Gb].
+  split; [apply Ga|apply Gb]; reflexivity.
+Qed.
